@@ -11,6 +11,20 @@ use crate::world::*;
 use std::cell::RefCell;
 use std::panic::{self, AssertUnwindSafe};
 
+/// Operation journal for crash triage: when set (only by `owlsim one`), the start position
+/// and every operation are written - unbuffered - *before* they are executed, so that the
+/// trace survives the death of the process.
+pub static OPLOG: std::sync::Mutex<Option<std::fs::File>> = std::sync::Mutex::new(None);
+
+fn oplog(line: &str) {
+    use std::io::Write;
+    if let Ok(mut g) = OPLOG.lock() {
+        if let Some(f) = g.as_mut() {
+            let _ = f.write_all(format!("{}\n", line).as_bytes());
+        }
+    }
+}
+
 thread_local! {
     /// (location, message) of the last panic on this thread, filled by the hook.
     static LAST_PANIC: RefCell<Option<(String, String)>> = RefCell::new(None);
@@ -126,6 +140,7 @@ pub fn generate(seed_i: u64, prop: u32, step_scale: usize) -> Result<Generated, 
         .and_then(|p| admit(&p))
         .ok_or_else(|| HarnessError(format!("start position {} not admitted", start_fen)))?;
     let start_fen = pos_of(&start).to_fen();
+    oplog(&format!("start {}", start_fen));
     let swarm_desc = sw.describe();
     let steps = (sw.steps * step_scale / 100).max(8);
     let family = choice.family.name();
@@ -167,6 +182,7 @@ pub fn generate(seed_i: u64, prop: u32, step_scale: usize) -> Result<Generated, 
                     return Err(HarnessError(format!("generator panic at {}: {}", loc, msg)));
                 }
             };
+            oplog(&op.encode());
             let r = exec_guarded(&mut w, &op)?;
             fold_digest(&mut d, &w, &op, &r);
             trace.push(op.clone());
